@@ -6,6 +6,8 @@ DOC = {
     'not_decided': ['result equivalence under all interleavings', 'the relaxed PageTracker.tracking flag', 'crate-wide lock-graph acyclicity through generic/dyn calls and drop glue (not armed: the over-approximate graph would raise false alarms)'],
 }
 
+WITNESSES = ['C16W1Fail', 'C16W1Twin']
+
 
 def rules(ctx):
     S.c16_rules(ctx)
